@@ -25,6 +25,7 @@ RULE = (
     "  A second model instance composes back-to-back sorts stably (new terms first, earlier terms as tie-breakers, "
     "as documented for Sort.then); where the order is total only through such earlier terms it is asserted only "
     "if the tree holds exactly one Sort node, i.e. the engine merged every sort into the outermost ORDER BY. "
+    "  Directly adjacent sorts in the program are documented to merge (new terms first): where their concatenated terms order the rows totally, the order - and any slice of it - is asserted whatever the tree looks like; 5 % of the cases are directed pairs of adjacent sorts (plain column terms, then expression terms) on a chain or a table. "
 )
 ASSUMPTIONS = [
     "SQLite retains sub-query order in practice, so an order lost in a sub-query is not observable on this database: "
